@@ -128,6 +128,14 @@ func evalCase(c Case) reply {
 			msg = fmt.Sprintf("Verify counts %d usable recovery blocks but only %d blocks of the declared slice size are stored", vr2.ShardCounts.UsableParityShardCount, len(exps))
 		}
 	}
+	if msg == "" && c.Conformant {
+		after, _ := fsx.Take(dir)
+		for n, d := range data {
+			if e, ok := after[n]; !ok || !bytes.Equal(e.Data, d) {
+				msg = fmt.Sprintf("the set is conformant and fully repairable, but after Verify+Repair %q is not restored", n)
+			}
+		}
+	}
 	if msg == "" {
 		after, _ := fsx.Take(dir)
 		for _, ch := range fsx.Diff(before, after) {
@@ -533,6 +541,25 @@ func TestCheck(t *testing.T) {
 			if cfg.Mine(idx) {
 				do(Case{Format: "par2", Muts: []Mut{{"exps", k}}, DataPresent: dp})
 				do(Case{Format: "par2", Muts: []Mut{{"exps", k}, {"dup:recv:1", 0}}, DataPresent: dp})
+			}
+		}
+	}
+	// a PAR2 set whose files are all declared empty (no checksum pairs) but that still carries recovery packets
+	for _, dp := range []int{0, 1} {
+		idx++
+		if cfg.Mine(idx) {
+			do(Case{Format: "par2", Muts: []Mut{{"f0.length", 0}, {"f0.pairs", 0}, {"f1.length", 0}, {"f1.pairs", 0}}, DataPresent: dp})
+			do(Case{Format: "par2", Muts: []Mut{{"f0.length", 0}, {"f0.pairs", 0}}, DataPresent: dp})
+		}
+	}
+	// PAR1: volumes with high numbers (only .p58..p60 exist) combined with many entries that are not saved in the set
+	for _, first := range []uint64{58, 97, 40} {
+		for _, extra := range []uint64{0, 96, 160, 200, 252} {
+			for _, dp := range []int{0, 2} {
+				idx++
+				if cfg.Mine(idx) {
+					do(Case{Format: "par1", Muts: []Mut{{"vol.first", first}, {"addentries", extra}}, DataPresent: dp, Conformant: dp == 2})
+				}
 			}
 		}
 	}
